@@ -521,7 +521,7 @@ pub fn drive_random_costly(ctx: &Ctx, sub: &Sub, cases: u64, max_len: usize) {
     drive_random_with(ctx, sub, cases, max_len, 48)
 }
 
-fn drive_random_with(ctx: &Ctx, sub: &Sub, cases: u64, max_len: usize, shrink_iters: u32) {
+pub fn drive_random_with(ctx: &Ctx, sub: &Sub, cases: u64, max_len: usize, shrink_iters: u32) {
     if cases == 0 {
         return;
     }
